@@ -483,7 +483,7 @@ def emit(design, connect_order=None, connect_style=None, block_order=None):
         L.append(f"    {ref_text(st[1])} //= lambda: {expr_text(st[2])}")
         continue
       L.append("    @update" if b["kind"] == "comb" else "    @update_ff")
-      L.append(f"    def {b['name']}():")
+      L.append(f"    def {b['name']}(){' -> None' if b.get('annot') else ''}:")          # annot: a return annotation on the block
       body = []
       emit_stmts(b.get("emit_stmts", b["stmts"]) if not b.get("op") else b["stmts"], 6, b["kind"], body, b.get("op"))
       L += body or ["      pass"]
@@ -1137,6 +1137,7 @@ class Gen:
         blk["lambda"] = True
         blk["name"] = "_lambda__" + ref_text(stmts[0][1]).replace(".", "_").replace("[", "_").replace("]", "_").replace(":", "_")
         if stmts[0][1]["steps"]: self.design.setdefault("stats", {}).setdefault("lambda_on_part_of_signal", 0); self.design["stats"]["lambda_on_part_of_signal"] += 1
+      if k.get("p_annot") and rng.random() < k["p_annot"]: blk["annot"] = True
       cls["blocks"].append(blk)
     # ff blocks
     rng.shuffle(ff_targets)
@@ -1154,6 +1155,7 @@ class Gen:
             body = [["if", ["rd", {"path": "reset", "steps": [], "lo": 0, "w": 1}], [["=", p, rv]], body]]
         stmts += body
       cls["blocks"].append({"name": f"ff_{bi}", "kind": "ff", "stmts": stmts}); bi += 1
+      if k.get("p_annot") and rng.random() < k["p_annot"]: cls["blocks"][-1]["annot"] = True
       i += n
     # explicit constraints consistent with the dataflow order (comb blocks are numbered in rank order)
     cls["constraints"] = []
